@@ -140,6 +140,15 @@ theorem car_implies_constraint {K R : Type} [CommRing K] [Ring R] [Algebra K R] 
     ∑ k ∈ range n, (A' i k * A j k + B' i k * B j k) = if i = j then 1 else 0 :=
   bogoliubov_constraint_of_car n ad a hc A B A' B' hinj hb i j hi hj
 
+open OFV.Car Finset in
+/-- … and the second block identity `W1 W2ᵀ + W2 W1ᵀ = 0` likewise (`{b†_i, b†_j}` is the scalar `Σ_k (A_ik B_jk + B_ik A_jk)`):
+together with `constraints_imply_car` the canonical constraints are EQUIVALENT to the CAR of the new operators -/
+theorem car_implies_second_constraint {K R : Type} [CommRing K] [Ring R] [Algebra K R] (n : Nat) (ad a : Nat → R)
+    (hc : CAR n ad a) (A B A' B' : Nat → Nat → K) (hinj : ∀ x y : K, x • (1 : R) = y • (1 : R) → x = y)
+    (hb : CAR n (bdag n A B ad a) (bann n A' B' ad a)) (i j : Nat) (hi : i < n) (hj : j < n) :
+    ∑ k ∈ range n, (A i k * B j k + B i k * A j k) = 0 :=
+  bogoliubov_constraint2_of_car n ad a hc A B A' B' hinj hb i j hi hj
+
 -- non-vacuity of the constraints: the identity transformation (A = A' = 1, B = B' = 0) on one mode
 example : (∀ i j, i < 1 → j < 1 → ∑ k ∈ Finset.range 1, ((if i = k then (1 : ℤ) else 0) * (if j = k then 1 else 0) + 0 * 0) =
     if i = j then 1 else 0) := by
